@@ -58,7 +58,25 @@ func atomicCallOn(s Site, method string, f *types.Var) bool {
 
 // fromAtomicLoad: v derives from <field>.Load()
 func fromAtomicLoad(v ssa.Value, f *types.Var) bool {
+	return fromAtomicLoadD(v, f, 0)
+}
+
+func fromAtomicLoadD(v ssa.Value, f *types.Var, depth int) bool {
 	for _, x := range rootsAll(v) {
+		// an accessor method of the module that returns the loaded value (NextMessageID())
+		if call, ok := x.(*ssa.Call); ok && depth < 2 {
+			if callee := call.Call.StaticCallee(); callee != nil && callee.Blocks != nil && callee.Pkg != nil && inModule(callee.Pkg.Pkg) {
+				all := len(returnsOf(callee)) > 0
+				for _, ret := range returnsOf(callee) {
+					if len(ret.Results) != 1 || !fromAtomicLoadD(ret.Results[0], f, depth+1) {
+						all = false
+					}
+				}
+				if all {
+					return true
+				}
+			}
+		}
 		if call, ok := x.(*ssa.Call); ok && calleeName(&call.Call) == "(*sync/atomic.Value).Load" && len(call.Call.Args) == 1 {
 			if fa, ok := call.Call.Args[0].(*ssa.FieldAddr); ok && fieldOfAddr(fa) == f {
 				return true
@@ -340,7 +358,7 @@ func runC18(c *Check) {
 	}
 
 	// ---- R2 sig hash coverage
-	p := c.P.ByRel["client"]
+	p := c.P.CodecPkg("client")
 	for _, tn := range []string{"AcceptRegister", "Register"} {
 		sd := findFuncDecl(p, tn, "Serialize")
 		hd := findFuncDecl(p, tn, "SigHash")
@@ -500,7 +518,20 @@ func runC18(c *Check) {
 	}, 2)
 	if fn := c.Fn("R4", "client.(*RemoteClient).sendMessage"); fn != nil {
 		for _, s := range callsTo(fn, "(*client.RemoteClient).sendDirect") {
-			ok, w := mustPass(s.Instr, callEdge(true, -1, nil, "client.IsHandshakeType"))
+			names := []string{"client.IsHandshakeType"}
+			// the Message.IsHandshakeType wrapper counts if it simply forwards to the table function
+			if wf := c.P.Fn("client.(Message).IsHandshakeType"); wf != nil {
+				fwd := len(returnsOf(wf)) > 0
+				for _, ret := range returnsOf(wf) {
+					if len(ret.Results) != 1 || derivesFromCall(ret.Results[0], "client.IsHandshakeType") == nil {
+						fwd = false
+					}
+				}
+				if fwd {
+					names = append(names, "(client.Message).IsHandshakeType")
+				}
+			}
+			ok, w := mustPass(s.Instr, callEdge(true, -1, nil, names...))
 			c.Decide(ok, "R4", "client.(*RemoteClient).sendMessage#direct-only-handshake-types", s.Pos(), "edge-cutset", w,
 				"a message bypasses the send queue only behind IsHandshakeType()==true", "a non-handshake message can be written directly to a connection whose handshake has not completed")
 		}
@@ -559,8 +590,20 @@ func runC18(c *Check) {
 					return sharesRoot(call.Call.Args[0], snd.Chan)
 				}, true)
 				ok2, w := mustPass(snd, g)
+				// a message serialised into a buffered writer is written only when the flush succeeded
+				buffered := false
+				for _, s2 := range sitesIn(fn) {
+					if o := calleeObj(s2.CC); o != nil && o.Name() == "Serialize" && len(s2.CC.Args) >= 2 {
+						if derivesFromCall(s2.CC.Args[len(s2.CC.Args)-1], "bufio.NewWriter", "bufio.NewWriterSize") != nil {
+							buffered = true
+						}
+					}
+				}
+				if ok2 && buffered {
+					ok2, w = mustPass(snd, errNilEdge(callNamed("(*bufio.Writer).Flush"), true))
+				}
 				c.Decide(ok2, "R6", "client.sendMessages#reported-sent-only-after-written", snd.Pos(), "edge-cutset+provenance", w,
-					"nil is reported to the caller only after this message's Serialize returned nil", "a message can be reported as sent (nil on its response channel) without having been written successfully")
+					"nil is reported to the caller only after this message's Serialize (and the flush of a buffered writer) returned nil", "a message can be reported as sent (nil on its response channel) without having been written successfully (Serialize failed, or it went into a buffered writer whose Flush result is not checked)")
 			}
 		}
 		c.Min("R6", "success reports in sendMessages", nS, 2)
@@ -631,24 +674,39 @@ func isConstBoolIface(v ssa.Value) (bool, bool) {
 
 // onlyErrorExits: every exit reachable from b (within a few blocks, no loops) is an error return.
 func onlyErrorExits(b *ssa.BasicBlock) bool {
-	seen := map[*ssa.BasicBlock]bool{}
-	q := []*ssa.BasicBlock{b}
+	ok := true
 	n := 0
-	for len(q) > 0 && n < 30 {
-		x := q[0]
-		q = q[1:]
-		if seen[x] {
-			continue
-		}
-		seen[x] = true
+	explore(entryNodesVia(b), func(nd walkNode) bool {
 		n++
-		if isExitBlock(x) {
-			if !isErrorReturnBlock(x) {
-				return false
-			}
-			continue
+		if n > 60 {
+			ok = false
+			return false
 		}
-		q = append(q, x.Succs...)
+		x := nd.b
+		if isExitBlock(x) {
+			if !isErrorReturnBlock(x) && !returnsKnownNonNilError(nd) {
+				ok = false
+			}
+			return false
+		}
+		return true
+	})
+	return ok
+}
+
+// returnsKnownNonNilError: the node is a return whose error result is known to be non-nil on this path
+// (a result variable that a failing branch filled in before).
+func returnsKnownNonNilError(nd walkNode) bool {
+	ret, ok := nd.b.Instrs[len(nd.b.Instrs)-1].(*ssa.Return)
+	if !ok || len(ret.Results) == 0 {
+		return false
 	}
-	return len(q) == 0
+	v := ret.Results[len(ret.Results)-1]
+	if phi, isPhi := v.(*ssa.Phi); isPhi && phi.Block() == nd.b && nd.pred != nil {
+		if pi := predIndex(nd.pred, nd.b); pi >= 0 && pi < len(phi.Edges) {
+			v = phi.Edges[pi]
+		}
+	}
+	nn, known := truthOf(v, nd.b, nd.env, 0)
+	return known && nn
 }
